@@ -124,6 +124,7 @@ static void hash_insert(vnacal_new_parameter_hash_t *vnphp,
     }
     vnprp->vnpr_hash_next = next;
     *anchor = vnprp;
+    vnprp->vnpr_serial = vnphp->vnph_count;
     if (++vnphp->vnph_count >= vnphp->vnph_allocation) {
 	(void)hash_expand(vnphp);
     }
@@ -163,6 +164,47 @@ void _vnacal_new_free_parameter_hash(vnacal_new_parameter_hash_t *vnphp)
 	free((void *)vnphp->vnph_table);
 	(void)memset((void *)vnphp, 0, sizeof(*vnphp));
     }
+}
+
+/*
+ * _vnacal_new_rollback_parameters: remove parameters added since a mark
+ *   @vnp: pointer to vnacal_new_t structure
+ *   @hash_count: vnph_count at the time of the mark
+ *   @unknown_parameters: vn_unknown_parameters at the time of the mark
+ *   @correlated_parameters: vn_correlated_parameters at the time of the mark
+ *   @unknown_parameter_anchor: vn_unknown_parameter_anchor at the time
+ *
+ *   Used when a standard is rejected after some of its parameters have
+ *   already been added: a rejected standard must leave nothing behind.
+ */
+void _vnacal_new_rollback_parameters(vnacal_new_t *vnp,
+	int hash_count, int unknown_parameters, int correlated_parameters,
+	vnacal_new_parameter_t **unknown_parameter_anchor)
+{
+    vnacal_new_parameter_hash_t *vnphp = &vnp->vn_parameter_hash;
+
+    if (vnphp->vnph_count == hash_count) {
+	return;
+    }
+    *unknown_parameter_anchor = NULL;
+    vnp->vn_unknown_parameter_anchor = unknown_parameter_anchor;
+    vnp->vn_unknown_parameters = unknown_parameters;
+    vnp->vn_correlated_parameters = correlated_parameters;
+    for (int bucket = 0; bucket < vnphp->vnph_allocation; ++bucket) {
+	vnacal_new_parameter_t **anchor = &vnphp->vnph_table[bucket];
+	vnacal_new_parameter_t *vnprp;
+
+	while ((vnprp = *anchor) != NULL) {
+	    if (vnprp->vnpr_serial >= hash_count) {
+		*anchor = vnprp->vnpr_hash_next;
+		_vnacal_release_parameter(vnprp->vnpr_parameter);
+		free((void *)vnprp);
+		continue;
+	    }
+	    anchor = &vnprp->vnpr_hash_next;
+	}
+    }
+    vnphp->vnph_count = hash_count;
 }
 
 /*
